@@ -87,6 +87,13 @@ type palsCase struct {
 	// first one's index and settings (Share) and is then optimised for other settings (PriorMinHit /
 	// PriorMinID when set, else 60 / 0.9); the first aligner's results must not be affected
 	Shared bool `json:"shared,omitempty"`
+	// Received != 0: the aligner under test does not build its own index: another aligner (the donor) is
+	// optimised for the settings under test and builds the index, and the aligner under test takes both over
+	// with Share. 1: it is fresh; 2: it had an earlier life of its own under stricter settings (twice the hit
+	// length, identity 0.99: Optimise, BuildIndex, Align) - nothing of that may survive; 3: it is fresh and,
+	// in a comparison of two sequences, the donor is a self-comparison aligner of the target (what is shared
+	// is the target's index and the settings, not the kind of comparison)
+	Received int `json:"received,omitempty"`
 	// TubeAt >= 1: the aligner is created with an explicit tube offset of MaxError + TubeAt - 1, MaxError
 	// being what Optimise chooses for these settings (learned from a throw-away aligner); the smallest
 	// offset the filter accepts is MaxError itself. Soundness and error-free runs are asserted, recall is not.
@@ -395,13 +402,36 @@ func check(c palsCase) *vlib.Failure {
 		}
 		desc += fmt.Sprintf(" [aligner used before with minHitLen=%d minId=%.2f]", c.PriorMinHit, float64(c.PriorMinID)/100)
 	}
-	if err := p.Optimise(c.MinHit, b.minID); err != nil {
-		return vlib.Failf("optimise", "%s: %v", desc, err)
+	if c.Received != 0 {
+		dq, dself := qs, c.Self
+		if c.Received == 3 && !c.Self {
+			dq, dself = ts, true
+		}
+		donor := pals.New(ts, dq, dself, nil, tubeOffset, &mem, nil)
+		if err := donor.Optimise(c.MinHit, b.minID); err != nil {
+			return vlib.Failf("optimise", "%s: %v", desc, err)
+		}
+		if err := donor.BuildIndex(); err != nil {
+			return vlib.Failf("build-index", "%s: %v", desc, err)
+		}
+		if c.Received == 2 {
+			if err := p.Optimise(2*c.MinHit, 0.99); err == nil {
+				if err := p.BuildIndex(); err == nil {
+					p.Align(false)
+				}
+			}
+		}
+		p.Share(donor)
+		desc += fmt.Sprintf(" [index and settings received through Share, variant %d]", c.Received)
+	} else {
+		if err := p.Optimise(c.MinHit, b.minID); err != nil {
+			return vlib.Failf("optimise", "%s: %v", desc, err)
+		}
+		if err := p.BuildIndex(); err != nil {
+			return vlib.Failf("build-index", "%s: %v", desc, err)
+		}
 	}
-	if err := p.BuildIndex(); err != nil {
-		return vlib.Failf("build-index", "%s: %v", desc, err)
-	}
-	if c.Refused {
+	if c.Refused && c.Received == 0 {
 		if err := p.Optimise(20, 0.5); err == nil {
 			// accepted after all: then these are new settings; go back to the ones under test
 			if err := p.Optimise(c.MinHit, b.minID); err != nil {
@@ -665,6 +695,9 @@ func gen(t *rapid.T) palsCase {
 	c.SavedTraps = rapid.IntRange(0, 4).Draw(t, "saved-traps") == 3
 	c.SelfCopy = c.Self && rapid.Bool().Draw(t, "self-copy")
 	c.Shared = rapid.IntRange(0, 5).Draw(t, "shared") == 4
+	if rapid.IntRange(0, 3).Draw(t, "received") == 2 {
+		c.Received = rapid.IntRange(1, 3).Draw(t, "received-variant")
+	}
 	if rapid.IntRange(0, 7).Draw(t, "explicit-tube-offset") == 6 {
 		c.TubeAt = rapid.SampledFrom([]int{1, 1, 2, 9, 40}).Draw(t, "tube-at")
 	}
@@ -705,6 +738,12 @@ func classes(c palsCase) []string {
 	}
 	if c.Shared {
 		l = append(l, "index-shared-with-an-aligner-optimised-otherwise")
+	}
+	if c.Received != 0 {
+		l = append(l, "index-and-settings-received-through-share")
+	}
+	if c.Received == 3 && !c.Self {
+		l = append(l, "shared-from-a-self-comparison-of-the-target")
 	}
 	if c.TubeAt > 0 {
 		l = append(l, "explicit-tube-offset")
@@ -785,5 +824,5 @@ func TestNearMinimumRecall(t *testing.T) {
 
 func TestPALS(t *testing.T) {
 	vlib.Run(t, vlib.Prop[palsCase]{Name: "soundness-and-recall", Checks: 200, Thorough: 9600, Gen: gen, Check: check, Classes: classes,
-		MinFrac: map[string]float64{"self": 0.1, "reverse-strand": 0.2, "indels": 0.08, "near-minimum-length": 0.08, "near-minimum-with-net-deletions": 0.08, "repeat-family": 0.08}})
+		MinFrac: map[string]float64{"self": 0.1, "reverse-strand": 0.2, "indels": 0.08, "near-minimum-length": 0.08, "near-minimum-with-net-deletions": 0.08, "repeat-family": 0.08, "index-and-settings-received-through-share": 0.15, "shared-from-a-self-comparison-of-the-target": 0.03}})
 }
